@@ -1,7 +1,7 @@
 \* thorough tier: call chains of 3 Lua frames
 SPECIFICATION Spec
 CONSTANTS
-  MaxLua = 3
+  MaxLua = 4
   AmountSigns <- Signs3
   Direct = TRUE
   ForkVersions <- Fork5
